@@ -38,7 +38,8 @@ SCENARIO_TIMEOUT = 300
 PROBES = ["earlier_killed", "earlier_io_error", "earlier_clean", "debris_spill_files", "debris_level_files",
           "debris_partial_result", "debris_header_only", "debris_unreadable_parquet", "same_data", "other_data",
           "other_format", "multi_history", "cli", "cli_tsv_leftover", "observed_workers>1", "torn_write",
-          "debris_zero_length", "prefix_or_root_differs", "observed_rows_multiple_of_chunk", "rollup_tool", "rollup_same_dir", "earlier_rollup_had_other_inputs", "rollup_outputs_match_input_pattern"]
+          "debris_zero_length", "prefix_or_root_differs", "observed_rows_multiple_of_chunk", "rollup_tool", "rollup_same_dir", "earlier_rollup_had_other_inputs", "rollup_outputs_match_input_pattern",
+          "several_collections_with_prefixes"]
 RULE = (
     "Histories in one destination directory. Family 1 enumerates, for each grid cell (earlier chunk size x observed "
     "chunk size x same/other data x same/other format), EVERY mutation call index of the earlier assign_confidence run "
@@ -214,6 +215,13 @@ def _family2(seed):
     observed = _run_desc(rng, tab_o, chunk=ch_o, fmt=fmt_o,
                          workers=rng.choice([1, 2, 4]), prefix=rng.choice([None, None, "p0"]),
                          file_root=rng.choice(["", "", "rootA."]), decoys=rng.random() < 0.8, tag="obs")
+    multi = rng.random() < 0.35
+    pool_px = ["pa", "pb", "pc"]
+    if multi:
+        # one call analysing two collections with per-file prefixes (the CLI with several PIN files)
+        tab2 = _table_params(rng, file_id=1, level_cols=level_cols)
+        observed["tables"] = [tab_o, tab2]
+        observed["conf"]["prefixes"] = rng.sample(pool_px, 2)
     earlier = []
     for j in range(n_e):
         same = rng.random() < 0.4
@@ -222,9 +230,13 @@ def _family2(seed):
                       fmt=rng.choice([fmt_o, fmt_o, "pin", "parquet"]), workers=rng.choice([1, 2]),
                       prefix=rng.choice([None, None, "p0", "p1"]), file_root=rng.choice(["", "", "rootA.", "rootB."]),
                       decoys=rng.random() < 0.8, tag=f"e{j}")
+        if multi and rng.random() < 0.7:
+            e["tables"] = [tab, _table_params(rng, file_id=1, level_cols=tab["level_cols"])]
+            e["conf"]["prefixes"] = rng.sample(pool_px, 2)
+            e["conf"]["file_root"] = observed["conf"].get("file_root", "")
         r = rng.random()
-        if r < 0.75:
-            e["fault"] = {"at": rng.randint(0, 45), "kind": rng.choice([k for k, _ in KINDS]), "frac": rng.choice([0.0, 0.5, 0.999])}
+        if r < (0.5 if multi else 0.75):
+            e["fault"] = {"at": rng.randint(0, 70 if multi else 45), "kind": rng.choice([k for k, _ in KINDS]), "frac": rng.choice([0.0, 0.5, 0.999])}
         earlier.append(e)
     return {"property": PROPERTY, "seed": seed, "family": 2, "earlier": earlier, "observed": observed}
 
@@ -447,6 +459,7 @@ def run_scenario(scn, workdir):
     probes["same_data" if same_data else "other_data"] = 1
     probes["other_format"] = int(any(e["format"] != scn["observed"]["format"] for e in scn["earlier"]))
     probes["multi_history"] = int(len(scn["earlier"]) > 1)
+    probes["several_collections_with_prefixes"] = int(len(scn["observed"]["tables"]) > 1)
     _c = (scn["observed"].get("knobs") or {}).get("CONFIDENCE_CHUNK_SIZE")
     probes["observed_rows_multiple_of_chunk"] = int(bool(_c) and _c < 10**8 and _n_rows(scn["observed"]["tables"][0]) % _c == 0)
     probes["observed_workers>1"] = int(obs.get("max_workers", 1) > 1)
